@@ -229,6 +229,19 @@ int main(int argc, char **argv) {
     size_t cap = 256, n = 0; char **lines = malloc(cap * sizeof *lines); char *line = NULL; size_t lc = 0; ssize_t len;
     while ((len = getline(&line, &lc, in)) >= 0) { while (len > 0 && (line[len-1] == '\n')) line[--len] = 0; if (n == cap) { cap *= 2; lines = realloc(lines, cap * sizeof *lines); } lines[n++] = strdup(line); }
     fclose(in); free(line);
+    /* "minpid <N>": run the script in a descendant whose pid has at least that value (pid-width dependent framing: "<prio>ident[pid]: ") */
+    for (size_t i = 0; i < n; i++) if (!strncmp(lines[i], "minpid\t", 7)) {
+        long want = atol(lines[i] + 7);
+        /* the parent burns pids with children that exit at once; the first child whose pid is large enough carries on as the caller */
+        for (int tries = 0; getpid() < want && tries < 40000; tries++) {
+            pid_t c = fork();
+            if (c < 0) break;
+            if (c == 0) { if (getpid() >= want) break; _exit(0); }
+            int st; waitpid(c, &st, 0);
+            if (c >= want) _exit(WIFEXITED(st) ? WEXITSTATUS(st) : 128 + WTERMSIG(st));
+        }
+        break;
+    }
     for (size_t i = 0; i < n; i++) { char *f[MAXF]; int nf = split_tabs(lines[i], f); if (nf > 0 && f[0][0] && f[0][0] != '#') handle_line(nf, f); }
     recf("end\t%d\n", cur_idx + 1);
     return 0;
